@@ -22,8 +22,8 @@ Starts == << V(NONE, 1, 2, 3, "none", NONE, NONE, NONE),
              V(7, 1, 2, 3, "rc", 4, 5, 6),
              V(NONE, 0, 0, 9, "alpha", NONE, NONE, NONE) >>
 FullTier == [core |-> StandardCore, extra |-> ExtraTier(3), build |-> <<>>]
-NoSchema == [kind |-> "preset", fam |-> "standard", suffix |-> "-base-prerelease-post-dev", sch |-> FullTier]
-SrcNone == [v |-> Unset, ctx |-> NoCtx, sch |-> FullTier, hasSchema |-> FALSE]
+NoSchema == [kind |-> "preset", fam |-> "standard", suffix |-> "-base-prerelease-post-dev", sch |-> FullTier, order |-> DefaultOrder]
+SrcNone == [v |-> Unset, ctx |-> NoCtx, sch |-> FullTier, hasSchema |-> FALSE, order |-> DefaultOrder]
 
 \* ---- mode "names" ------------------------------------------------------------
 OvVal(f) == CASE f = "epoch" -> 2 [] f = "major" -> 5 [] f = "minor" -> 6 [] f = "patch" -> 0
@@ -60,7 +60,7 @@ NameCombos == { <<NoOv, NoOv>>,
 IndexArgs ==
   { [ src |-> SrcNone, hasTag |-> TRUE, tag |-> Starts[2],
       ov |-> nc[1], bp |-> nc[2], ops |-> os, vcs |-> NoVcs,
-      schema |-> [kind |-> "ron", fam |-> "", suffix |-> "", sch |-> IdxSchema] ]
+      schema |-> [kind |-> "ron", fam |-> "", suffix |-> "", sch |-> IdxSchema, order |-> DefaultOrder] ]
     : nc \in NameCombos,
       os \in { <<o>> : o \in OneOps } \cup { <<o1, o2>> : o1 \in OneOps, o2 \in SecondOps } }
 
@@ -72,10 +72,31 @@ VcsChoices ==
 VcsArgs ==
   { [ src |-> SrcNone, hasTag |-> TRUE, tag |-> Starts[s], ov |-> NoOv,
       bp |-> IF bpx THEN [NoOv EXCEPT !.patch = 1] ELSE NoOv, ops |-> <<>>, vcs |-> vc,
-      schema |-> [kind |-> "preset", fam |-> fam, suffix |-> sfx, sch |-> FullTier] ]
+      schema |-> [kind |-> "preset", fam |-> fam, suffix |-> sfx, sch |-> FullTier, order |-> DefaultOrder] ]
     : s \in {1, 2, 3}, bpx \in BOOLEAN, vc \in VcsChoices, fam \in {"standard", "calver"}, sfx \in {"", "-no-context", "-context", "-base-prerelease"} }
 
-ArgSpace == CASE Mode = "names" -> NamesArgs [] Mode = "index" -> IndexArgs [] Mode = "vcs" -> VcsArgs
+\* ---- mode "order": custom precedence orders (permutations, and one with levels left out) ----
+Orders == << DefaultOrder,
+             <<"Build", "ExtraCore", "Dev", "Post", "PreReleaseNum", "PreReleaseLabel", "Core", "Patch", "Minor", "Major", "Epoch">>,
+             <<"Major", "Minor", "Patch", "Epoch", "Post", "Dev", "PreReleaseLabel", "PreReleaseNum", "Core", "ExtraCore", "Build">>,
+             <<"Patch", "Major", "Core", "PreReleaseNum", "Dev">> >>
+OrderArgs ==
+  { [ src |-> SrcNone, hasTag |-> TRUE, tag |-> Starts[s],
+      ov |-> ( [f \in {Fields[i] : i \in 1..7} |-> IF ch[f] = 1 THEN OvVal(f) ELSE NONE] @@ [label |-> ""] ),
+      bp |-> ( [f \in {Fields[i] : i \in 1..7} |-> IF ch[f] = 2 THEN BpVal(f) ELSE NONE] @@ [label |-> IF lab = 2 THEN "rc" ELSE ""] ),
+      ops |-> os, vcs |-> NoVcs,
+      schema |-> [kind |-> "ron", fam |-> "", suffix |-> "", sch |-> FullTier, order |-> Orders[o]] ]
+    : s \in {1, 2}, lab \in {0, 2}, ch \in [{Fields[i] : i \in 1..7} -> {0, 2}], o \in 1..Len(Orders),
+      os \in { <<>>, <<[sec |-> "core", kind |-> "bump", idx |-> 0, hasval |-> FALSE, val |-> NoVal]>>,
+                    <<[sec |-> "extra", kind |-> "bump", idx |-> 2, hasval |-> TRUE, val |-> [t |-> "num", n |-> 9, s |-> <<57>>]]>> } }
+\* ---- mode "tmpl": flag values that are templates over the pre-bump snapshot ----
+RefVals == {NONE, 4, -10, -11, -12, -13, -14}
+TmplArgs ==
+  { [ src |-> SrcNone, hasTag |-> TRUE, tag |-> Starts[s],
+      ov |-> [NoOv EXCEPT !.major = x1, !.post = x2], bp |-> [NoOv EXCEPT !.patch = x3, !.minor = x4, !.dev = x5],
+      ops |-> <<>>, vcs |-> [NoVcs EXCEPT !.distance = d], schema |-> NoSchema ]
+    : s \in {1, 2}, x1 \in RefVals, x2 \in RefVals, x3 \in RefVals, x4 \in {NONE, -13}, x5 \in {NONE, -14, -12}, d \in {NONE, 0, 3} }
+ArgSpace == CASE Mode = "tmpl" -> TmplArgs [] Mode = "names" -> NamesArgs [] Mode = "index" -> IndexArgs [] Mode = "vcs" -> VcsArgs [] Mode = "order" -> OrderArgs
 
 Init == \E args \in ArgSpace : InitWith(args)
 Spec == Init /\ [][Next]_vars
@@ -100,7 +121,7 @@ LawPre ==
      ELSE IF p2.l = "none" THEN [l |-> "alpha", n |-> a.bp.prenum] ELSE [l |-> p2.l, n |-> Or0(p2.n) + a.bp.prenum]
 LawEpoch == LET e == LawNum("epoch", 0) IN IF e = 0 THEN NONE ELSE e
 ClosedFormLaw ==
-  (pc = "done" /\ a.ops = <<>>) =>
+  (pc = "done" /\ a.ops = <<>> /\ Order = DefaultOrder /\ ra = [ov |-> a.ov, bp |-> a.bp]) =>
      /\ v.epoch = LawEpoch
      /\ v.major = LawNum("major", 0) /\ v.minor = LawNum("minor", 0) /\ v.patch = LawNum("patch", 0)
      /\ v.pre = LawPre
